@@ -162,6 +162,19 @@ def run_case(cs):
                             {"steps": steps, "path": rel, "patterns": want},
                         )
         model = want
+        if g == 0 and rng.random() < 0.3:
+            # a nested history that appears only now (sealed on its own, without pattern options): the next parent run
+            # must hand the parent's patterns down to it
+            late = [x for x in subdirs if x not in nested and ignoreref.match(model, x) is False and os.path.isdir(os.path.join(root, x))]
+            if late:
+                ln = rng.choice(late)
+                r = drive.run("create", [os.path.join(root, ln), "-h", "md5"])
+                steps.append(f"late child {ln!r} => {r.exit}")
+                if r.exit == 0:
+                    nested.append(ln)
+                    for n2 in world.find_histories(root):
+                        child_prev[n2] = hist.latest_patterns(root, n2)
+                    cs.count("late_child_histories")
     eff = model
     # ---- differential directory hashes: ignored entries physically removed must not change anything
     f0 = rng.choice(world.FORMATS)
